@@ -2,6 +2,7 @@ import RbV.Basic.Codec
 import RbV.Ref.EditDist
 import RbV.Model.Ukkonen
 import RbV.Model.MyersSimple
+import RbV.Model.MyersLong
 /-! Driver for property C09: approximate matchers and distance functions.
 
 `c09 my <s|l> <w> <new|bld> <pattern> <amb> <wild> <op>/… => <obs>/…`
@@ -65,13 +66,16 @@ def expectOp (eqv : Nat → Nat → Bool) (p : List Nat) (op : String) : Option 
     | none => none
   | _ => none
 
-/-- the mirror model of the single-word matcher (`Model.MyersSimple`, proved equal to the oracle for 1 ≤ |p| ≤ w) on a
-`f:<k>:<text>` operation; `none` for the other operations -/
-def modelOp (w : Nat) (eqv : Nat → Nat → Bool) (p : List Nat) (op : String) : Option String :=
+/-- the mirror model of the single-word matcher (`Model.MyersSimple`, proved equal to the oracle for 1 ≤ |p| ≤ w) resp. of
+the block-based matcher (`Model.MyersLong`: blocks, carries, band-limited activation) on a `f:<k>:<text>` operation;
+`none` for the other operations -/
+def modelOp (simple : Bool) (w : Nat) (eqv : Nat → Nat → Bool) (p : List Nat) (op : String) : Option String :=
   match op.splitOn ":" with
   | ["f", ks, th] =>
     match parseNat ks, parseHex th with
-    | some k, some t => some (showPairs (RbV.Model.MyersSimple.findAllEnd w eqv p t k))
+    | some k, some t =>
+      some (showPairs (if simple then RbV.Model.MyersSimple.findAllEnd w eqv p t k
+                       else RbV.Model.MyersLong.findAllEnd w eqv p t k))
     | _, _ => none
   | _ => none
 
@@ -103,8 +107,8 @@ def verdictMy (toks : List String) (out : String) : String :=
           | none => true
         -- single-word version: run the mirror model too; it is proved equal to the oracle, so a difference between
         -- model and oracle is a drift of the compiled driver, never a violation
-        let drift := impl = "s" && (ops.zip exps).any fun (op, e) =>
-          match modelOp w eqv p op, e.1 with
+        let drift := (ops.zip exps).any fun (op, e) =>
+          match modelOp (impl = "s") w eqv p op, e.1 with
           | some ms, some es => ms != es
           | _, _ => false
         let tags := dedupTags (String.join (exps.map (·.2)) ++ " " ++ impl ++ toString w
